@@ -264,6 +264,10 @@ type U =
 
 type G<T> = {Item: T}
 
+type Gu<T> =
+| GuS of T
+| GuN
+
 `
 
 func (c *c15Case) decls() string {
@@ -274,6 +278,8 @@ func (c *c15Case) decls() string {
 		fmt.Fprintf(&b, "type Uk%d =\n| Ck%d of %s\n| Dk%d\n\n", k, k, c.text, k)
 		fmt.Fprintf(&b, "let pk%d (x:%s) =\n  0\n\n", k, c.text)
 		fmt.Fprintf(&b, "let wk%d () =\n  slice.New<%s> ()\n\n", k, c.text)
+		// explicit type argument on an UNQUALIFIED name of the current package (a generic constructor)
+		fmt.Fprintf(&b, "let uk%d () =\n  GuN<%s> ()\n\n", k, c.text)
 	}
 	if c.t.k != "unit" && c15WordR.MatchString(c.text) {
 		// the same type with the user record replaced by a record defined LATER in the same
@@ -337,6 +343,15 @@ func c15Extract(src string) (map[string]string, error) {
 				} else {
 					out["pkginfo:"+name[2:]] = printNode(d.Type.Results.List[0].Type)
 				}
+			case strings.HasPrefix(name, "uk"):
+				ast.Inspect(d.Body, func(n ast.Node) bool {
+					if ix, ok := n.(*ast.IndexExpr); ok {
+						if id, ok := ix.X.(*ast.Ident); ok && id.Name == "New_Gu_GuN" {
+							out["localtarg:"+name[2:]] = printNode(ix.Index)
+						}
+					}
+					return true
+				})
 			case strings.HasPrefix(name, "wk"):
 				if d.Type.Results != nil && len(d.Type.Results.List) == 1 {
 					out["targ-result:"+name[2:]] = printNode(d.Type.Results.List[0].Type)
@@ -472,6 +487,7 @@ func runC15(r *core.Run, tier string) {
 			check("payload", c.want)
 			check("ctorparam", c.want)
 			check("targ", c.want)
+			check("localtarg", c.want)
 			check("targ-result", normGo("[]"+c.t.golang()))
 		}
 		if c.t.k != "unit" && c15WordR.MatchString(c.text) {
